@@ -241,6 +241,42 @@ def main():
             if e1 > 1e-10:
                 ck.violation("td-last-equals-ti", "td", dict(rp, err=e1), rp)
 
+        # the same two limits when the bath memory is cut off at a time
+        # inside the axis (constructor option cutoff_time), both forms
+        for ci in range(2):
+            kc = int(rng.randint(len(ta.data) // 5, len(ta.data) - 1))
+            tc = float(ta.data[kc]) + (0.0 if ci == 0 else 0.37 * ta.step)
+            for asop in (False, True):
+                rp = dict(kind="td-limits-cutoff", seed=ck.seed, system=s,
+                          N=Nm, cutoff_time=tc, as_operators=asop)
+                with ck.guarded("td-limits", "td-cutoff", rp, rp):
+                    sbi_c = ag.get_SystemBathInteraction()
+                    TDc = TDRedfieldRelaxationTensor(
+                        ham, sbi_c, cutoff_time=tc, as_operators=asop)
+                    TIc = RedfieldRelaxationTensor(
+                        ham, sbi_c, cutoff_time=tc, as_operators=asop)
+                    if asop:
+                        pairs = [(numpy.array(TDc.Lm), numpy.array(TIc.Lm)),
+                                 (numpy.array(TDc.Ld), numpy.array(TIc.Ld))]
+                    else:
+                        with qr.eigenbasis_of(ham):
+                            pairs = [(numpy.array(TDc.data),
+                                      numpy.array(TIc.data))]
+                    e0 = e1 = 0.0
+                    for dtd, dti in pairs:
+                        sc = max(float(numpy.abs(dti).max()), 1e-300)
+                        e0 = max(e0, float(numpy.abs(dtd[0]).max()) / sc)
+                        e1 = max(e1, float(numpy.abs(dtd[-1] - dti).max())
+                                 / sc)
+                    ck.case("td-limits-cutoff", (s, ci, asop),
+                            sample=dict(rp, at0=e0, atend=e1))
+                    if e0 > 1e-12:
+                        ck.violation("td-zero-at-zero", "td-cutoff",
+                                     dict(rp, err=e0), rp)
+                    if e1 > 1e-10:
+                        ck.violation("td-last-equals-ti", "td-cutoff",
+                                     dict(rp, err=e1), rp)
+
     # ---------------- recorded TD index walks validated against TDIndex
     class LoggingArray(numpy.ndarray):
         log = None
